@@ -34,7 +34,7 @@ def trace_back(fn, operand, depth=6):
         bb, idx, _, kind, payload = d
         if kind == "call":
             return l
-        if payload[0] == "use" and payload[1][0] in ("c", "m") and not payload[1][1]:
+        if payload[0] == "use" and payload[1][0] in ("c", "m") and not payload[1][1][1]:
             o = payload[1]
             continue
         return l
